@@ -22,3 +22,47 @@ func Run(seed int64, tier, outDir string) (*emit.Summary, error) {
 	}
 	return sum, nil
 }
+
+// AddUnschedulable runs only the scripts that wait out status.ScheduleWindow (a Pod that
+// stays unschedulable must be reported Failed by the watcher's delayed re-check) and appends
+// them to another property's summary as one more case file (used by the C08 check: the
+// "unschedulable beyond the grace window" clause seen through the real status watcher).
+func AddUnschedulable(sum *emit.Summary, prop, tier, outDir string) error {
+	scripts := unschedulableScripts(tier)
+	if tier != "thorough" && len(scripts) > 4 {
+		scripts = scripts[:4]
+	}
+	obs := make([]*robs, len(scripts))
+	done := make(chan int, len(scripts))
+	for i := range scripts {
+		go func(i int) {
+			obs[i] = runReporterScript(scripts[i])
+			done <- i
+		}(i)
+	}
+	for range scripts {
+		<-done
+	}
+	cf := &emit.CaseFile{Name: "Cases_" + prop + "_watcher_unschedulable",
+		Imports: "From CliUtils Require Import Model.Reporter Corr.CorrC16.", Check: "check_reporter"}
+	var terms []string
+	var nontr []bool
+	for i, sc := range scripts {
+		o := obs[i]
+		term, text := sc.caseTerm(o)
+		if o.panicMsg != "" {
+			sum.ImplFailures = append(sum.ImplFailures, "watcher: panic: "+o.panicMsg+" in "+text)
+			continue
+		}
+		if !o.closed {
+			sum.ImplFailures = append(sum.ImplFailures, "watcher: event channel not closed 5s after cancel: "+text)
+		}
+		cf.Add(term, text)
+		terms = append(terms, term)
+		nontr = append(nontr, true)
+		sum.Count("watcher-unschedulable:" + sc.label)
+	}
+	sum.Evaluations += len(terms)
+	sum.DistinctNontrivial += emit.Distinct(terms, nontr)
+	return cf.Write(outDir, sum)
+}
